@@ -1,4 +1,36 @@
 import RP.Driver.Common
--- line-protocol driver for property C01 (stub)
-def handle (_line : String) : String := "unimplemented"
+import RP.Model.Eval
+/-! line-protocol driver for C01
+    `eval <std|short> <bits>`      → `<variant index> <r1> <r2> <kicker mask>`  (or `panic`)
+    `cmp <std|short> <a> <b>`      → `Less|Equal|Greater`                        (`Strength::cmp`) -/
+open RP.Driver RP.Eval
+
+def cfgOf : String → Option Cfg
+  | "std" => some .std
+  | "short" => some .short
+  | _ => none
+
+def ordStr : Ordering → String
+  | .lt => "Less"
+  | .eq => "Equal"
+  | .gt => "Greater"
+
+def handle (line : String) : String :=
+  match words line with
+  | ["eval", c, b] =>
+    match cfgOf c, b.toNat? with
+    | some cfg, some bits =>
+      match strength? cfg bits with
+      | some s => s!"{s.idx} {s.r1} {s.r2} {s.kicks}"
+      | none => "panic"
+    | _, _ => "bad-op"
+  | ["cmp", c, a, b] =>
+    match cfgOf c, a.toNat?, b.toNat? with
+    | some cfg, some x, some y =>
+      match strength? cfg x, strength? cfg y with
+      | some _, some _ => ordStr (compareHands cfg x y)
+      | _, _ => "panic"
+    | _, _, _ => "bad-op"
+  | _ => "bad-op"
+
 def main : IO Unit := RP.Driver.run handle
